@@ -93,12 +93,18 @@ def run_path(hname, params, prefix, validate=False):
         # path (it stays counted as unencoded), but a violation found this way is a real, replayed counterexample.
         if _G['native'] is not None:
             try:
-                vals = I.model_values()
-                st, msg, role = native_replay(hname, params, vals, _G['native'])
-                rec['native_sampled'] = st
-                if st in ('violation', 'panic') and st != 'panic':
-                    rec.update(status='known' if role in _G.get('known_roles', ()) else 'violation', msg=msg + ' [found by native replay of an unencoded path]',
-                               role=role, values=vals, native=st, native_msg=msg)
+                n = 0
+                for vals in diverse_models(I, int(os.environ.get('VERIF_UNENCODED_SAMPLES', '6')), random.Random(len(prefix) * 7919 + sum(prefix))):
+                    st, msg, role = native_replay(hname, params, vals, _G['native'])
+                    n += 1
+                    rec['native_sampled'] = st
+                    if st == 'panic':
+                        role, msg = 'panic', 'the implementation panics: ' + msg[:160]
+                    if st in ('violation', 'panic'):
+                        rec.update(status='known' if role in _G.get('known_roles', ()) else 'violation', msg=msg + ' [found by native replay of an unencoded path]',
+                                   role=role, values=vals, native=st, native_msg=msg)
+                        break
+                rec['native_samples'] = n
             except (Infeasible, KeyError, AssertionError, Unsupported):
                 pass
     except RecursionError:
@@ -138,6 +144,43 @@ def run_path(hname, params, prefix, validate=False):
         except (Infeasible, Unsupported):
             pass
     return rec
+
+
+# byte patterns the diversified sampling of an unencoded path pushes input bytes towards: blanks, line ends, quotes, '=', '/', '<', '>',
+# and multi-byte characters (U+3000 full-width space, U+00E9, U+FEFF, U+013C whose low byte is '<', U+305B whose low byte is '[', U+1F600)
+PATTERNS = [[32], [9], [10], [13], [34], [39], [61], [47], [60], [62], [0], [0xE3, 0x80, 0x80], [0xC3, 0xA9], [0xEF, 0xBB, 0xBF], [0xC4, 0xBC], [0xE3, 0x81, 0x9B],
+            [0xF0, 0x9F, 0x98, 0x80], [32, 32], [10, 10], [9, 32]]
+
+
+def diverse_models(I, k, rnd):
+    """up to k models of the current path condition: the solver's own model first, then models in which a randomly chosen run of input
+    bytes is constrained to one of PATTERNS (kept when satisfiable together with the path condition)"""
+    yield I.model_values()
+    holes = [(name, v) for name, v in I.vars.items() if isinstance(v, list) and v]
+    if not holes:
+        return
+    s = I.solver
+    got, tries = 1, 0
+    while got < k and tries < 3 * k:
+        tries += 1
+        s.push()
+        try:
+            for _ in range(1 + rnd.randrange(2)):
+                name, v = holes[rnd.randrange(len(holes))]
+                pat = PATTERNS[rnd.randrange(len(PATTERNS))]
+                if len(pat) > len(v):
+                    continue
+                pos = rnd.randrange(len(v) - len(pat) + 1)
+                for j, b in enumerate(pat):
+                    if z3.is_expr(v[pos + j]):
+                        s.add(v[pos + j] == b)
+            I.stats['solver_calls'] += 1
+            if s.check() == z3.sat:
+                m = s.model()
+                got += 1
+                yield I.model_values(m)
+        finally:
+            s.pop()
 
 
 def native_replay(hname, params, values, nat):
